@@ -3,8 +3,9 @@
 import sys, os, shutil, json, re
 pid, n, how = sys.argv[1], int(sys.argv[2]), sys.argv[3]
 note = sys.argv[4] if len(sys.argv) > 4 else ""
-src = "/tmp/mutout2-%s/%d" % (pid, n)
-dst = "/verif/seeded/%s-%d" % (pid, n + 3)
+wave = int(os.environ.get("WAVE", "2"))
+src = "/tmp/mutout%d-%s/%d" % (wave, pid, n)
+dst = "/verif/seeded/%s-%d" % (pid, n + 3 * (wave - 1))
 os.makedirs(dst, exist_ok=True)
 shutil.copy(src + "/patch.diff", dst + "/patch.diff")
 shutil.copy(src + "/demo.rs", dst + "/demo.rs")
@@ -12,10 +13,10 @@ shutil.copy(src + "/README.md", dst + "/agent_README.md")
 readme = open(src + "/README.md").read()
 m = re.search(r"## Change\s*\n(.*?)(\n## |\Z)", readme, re.S)
 change = ("## Change\n" + m.group(1).strip()) if m else readme[:600]
-meta = {"property": pid, "wave": 2,
+meta = {"property": pid, "wave": wave,
         "origin": "written by a fresh sub-agent that saw only the property text, one-line descriptions of the first-round changes to avoid, and a scratch worktree of /repo",
         "needs_to_manifest": change[:1500],
-        "confirmed": "WAVE=2 vlib/seedeval.sh %s %d %s: demo passes on the unchanged tree, fails with the patch; the crate's suite passes with the patch" % (pid, n, pid),
+        "confirmed": "WAVE=%d vlib/seedeval.sh" % wave + " %s %d %s: demo passes on the unchanged tree, fails with the patch; the crate's suite passes with the patch" % (pid, n, pid),
         "detected_by": "./check %s" % pid, "how": how}
 if note:
     meta["machinery_strengthened"] = note
